@@ -143,6 +143,9 @@ class Run:
             shutil.copy('/repo/go.sum', os.path.join(hdir, 'go.sum'))
         except Exception:
             pass
+        g = subprocess.run([sys.executable, os.path.join(ROOT, 'bin', 'gencatalog.py')], stdout=subprocess.PIPE, stderr=subprocess.STDOUT)
+        if g.returncode != 0:
+            raise ToolTrouble('catalog generation failed: ' + g.stdout.decode(errors='replace')[-1500:])
         cmd = ['go', 'build', '-tags', 'verif'] + (['-race'] if race else []) + ['-o', exe, './cmd/hcv']
         t_start = time.time()
         p = subprocess.run(cmd, cwd=hdir, env=e, stdout=subprocess.PIPE, stderr=subprocess.STDOUT, timeout=900)
